@@ -26,6 +26,7 @@ StructCat == CASE STRUCTS = "quick" -> { St(1, O), St2(1, O, 2, <<6, 6, 3>>), St
                [] STRUCTS = "thorough" -> { St(1, O), St2(1, O, 2, <<6, 6, 3>>), St2(1, O, 2, <<4, 8, 6>>), St2(1, <<4, 8, 3>>, 1, <<8, 4, 9>>),
                                             St2(1, O, 1, <<6, 6, 6>>), St2(1, O, 2, <<6, 6, 6>>), St2(1, O, 2, <<3, 3, 3>>), St2(1, O, 1, <<3, 3, 3>>),
                                             St2(1, O, 2, <<6, 0, 3>>), St2(1, <<0, 0, 2>>, 1, <<6, 6, 8>>) }
+               [] STRUCTS = "tiny" -> { St2(1, O, 2, <<6, 6, 3>>) }
                [] STRUCTS = "proj" -> { St(1, O), St2(1, O, 2, <<6, 6, 3>>), St2(1, O, 2, <<4, 8, 6>>) }
 Pts == CASE PTSCAT = "quick" -> << O, <<6, 6, 0>>, <<6, 0, 3>>, <<0, 0, 3>>, <<4, 8, 0>>, <<1, 2, 5>> >>
          [] PTSCAT = "thorough" -> << O, <<6, 6, 0>>, <<6, 0, 3>>, <<0, 0, 3>>, <<4, 8, 0>>, <<1, 2, 5>>, <<3, 3, 3>>, <<6, 6, 6>>, <<2, 2, 0>>, <<6, 0, 0>>, <<4, 8, 3>> >>
